@@ -86,11 +86,12 @@ def check (j : Json) : Except String Verdict := do
     panicked := jBoolD obs "panic" false }
   let keyUsed := jStrD obs "keyUsed" ""
   let inv : Invocation := ⟨"pkg", "svc", method, method⟩
-  let rx : String → String → Bool := fun _ _ => false
+  let rx : String → String → Bool := match parseRx j with | .ok t => rxOf t | .error _ => fun _ _ => false
+  let md : Meta := match parseMeta j with | .ok m => m | .error _ => []
   let lk : Lk Listener := supply lsup lis
   let nk : String → Lk RouteCfg := fun n => if n = "rc-a" then supply nsup namedCfg else .err
   -- model (draw value 0 is enough: generated cluster vectors have at most one non-zero weight)
-  let ro := routeCall Generated.pick rx lk nk false [] inv 0
+  let ro := routeCall Generated.pick rx lk nk false md inv 0
   let c0 : Call := ⟨pretag, false, 0⟩
   let showCall (c : Call) : String := s!"tag={c.tag} locked={c.locked} timeout={c.timeoutMs}"
   let implCall : Call := ⟨o.tag, o.locked, o.timeoutMs⟩
@@ -114,7 +115,7 @@ def check (j : Json) : Except String Verdict := do
   -- spec: judged only when every supply is something the manager may return (error or value)
   let inDomain := (lsup != "typednil" && lsup != "nilnil") && (nsup != "typednil" && nsup != "nilnil")
   let expectedRoute : Option (String × Nat) :=
-    match Spec.C08.expected rx lk.toOption (fun n => (nk n).toOption) false [] inv with
+    match Spec.C08.expected rx lk.toOption (fun n => (nk n).toOption) false md inv with
     | .inr r => detPick r
     | .inl _ => none
   let sf : Option String :=
